@@ -1010,3 +1010,9 @@ CASES += [
 CASES += [
  dict(id='mut-header-label-not-printed', kind='fire', file=M, old='        print!(" {}|", pad_right(free_var, len));\n', new='        let _ = len;\n', expect={'C10': 'column names'}, control=False),
 ]
+CASES += [
+ dict(id='mut-sudoku-input-file-not-read', kind='fire', file=U, old='        file.read_to_string(&mut puzzle_input)?;\n', new='        let _ = &mut file;\n', expect={'C17': 'input'}, control=False),
+ dict(id='mut-clique-record-not-added', kind='fire', file=C, old='        edges.push((edge[0].to_string(), edge[1].to_string()));\n', new='', expect={'C16': 'edge list'}, control=False),
+ dict(id='mut-table-without-header', kind='fire', file=M, old='        print_header(&headers, &widths);\n', new='', expect={'C10': 'header of the table'}, control=False),
+ dict(id='mut-parse-tree-nodes-from-one', kind='fire', file=PIO, old='(0..self.nodes.len()).collect()', new='(1..self.nodes.len()).collect()', expect={'C14': 'node list'}, control=False),
+]
